@@ -451,7 +451,7 @@ func stripDigits(s string) string {
 func init() {
 	_ = x509.Certificate{}
 	register(&mc.Check{
-		ID: "C11", Title: "OCSP is preferred; CRL is consulted exactly when OCSP is absent or inconclusive", DesignRef: "DESIGN.md §4 C11",
+		ID: "C11", Extra: clockPass("C11", "C11T"), Title: "OCSP is preferred; CRL is consulted exactly when OCSP is absent or inconclusive", DesignRef: "DESIGN.md §4 C11",
 		Rule: "The complete decision table for one certificate: o in 0..3 responders x c in 0..3 distribution points x every outcome class per contacted source (OCSP: Good, Revoked, Unknown status, error; CRL: clean, lists, failing) " +
 			"x both purposes x both entry points, plus chains of length 3..4 with <=2 (quick) / <=3 (thorough) deviations from (Good, clean); result, method label, the list of server results with their URLs and the per-certificate request sequence " +
 			"are compared with the table of the statement; OCSP and CRL are served through one scripted transport with the real HTTPFetcher.",
